@@ -52,6 +52,36 @@ CHECKS = {
          "uncertainty per period and grand totals equal the daily frame's (1e-9 relative); invalid arguments raise.",
          "Finite stated space; bimonthly blocks counted from the month of the first reporting day.",
          "DESIGN.md section 6, C19"),
+ "C02": ("model_checking",
+         "explicit-state BFS over call histories on the real objects (state = structural fingerprint of the whole object graph + serialised document), run to a fixpoint; aliasing audit",
+         "Per family (daily, billing, hourly, hourly solar, CalTRACK hourly, plus variants that take the side-effect paths: poor-fit fits and an "
+         "ignored GHI column) one fitted model is explored breadth-first over the alphabet {predict(R_i) for 5 spans x with/without usage, "
+         "fit of another meter}: every state must serialise to the initial document, every transition's output must equal the same call on a "
+         "pristine copy, the data object passed must keep its fingerprint. The search closes (every operation maps every discovered state into "
+         "the discovered set), so the verdict holds for histories of any length over the alphabet. Separately every constructor/from_series entry "
+         "point is checked for leaving the caller's input unchanged, and handed-out / prediction frames for independence (behaviourally).",
+         "deepcopy snapshots (asserted faithful on every use); hourly models get an explicit seed (to_json re-draws a private seed otherwise); "
+         "C-level state of numba/BLAS is observed only through outputs.",
+         "DESIGN.md section 6, C02"),
+ "C14": ("exploration",
+         "exhaustive enumeration by introspection of every settings field x alternative values x key spellings x input forms x developer_mode, against a frozen table of approved constants",
+         "Every field of the daily, legacy, billing and hourly settings trees (found by model_fields introspection united with the frozen table "
+         "spec/approved_constants.json) x alternative values (default +/- step, bounds and next floats, members/non-members, None, mistyped) x key "
+         "spelling x input form (kwargs, nested dict, nested object of the declared and related classes, model constructors, update helper, "
+         "attribute assignment) x developer_mode {absent, False, True}; full products over the cross-field validator groups; stored-document "
+         "round trips. Oracle: defaults == table; a developer-only leaf differing from its approved value without developer_mode is rejected "
+         "(evaluated on the result for every form); valid non-developer values accepted; invalid rejected; stored settings == built settings.",
+         "The approved table is the specification: a deliberate change of a default must update it. Unspecified inputs listed in evidence.assumptions.",
+         "DESIGN.md section 6, C14"),
+ "C18": ("exploration",
+         "exhaustive products: every hour of 2023+2024 x zones x segmentation types; marker models through from_json for routing; all 64 bin-endpoint subsets x temperature lattice; all 168 hours-of-week x occupancy lookups",
+         "segment_time_series weights for every hour of a leap and a non-leap year in 4 zones x 4 segmentation types x 52 windows; weighted "
+         "fitting on intercept-only designs; prediction routing with marker models built through the public JSON path (segment j answers a value "
+         "naming j, its bin tables and its occupancy bit); compute_temperature_bin_features for all 64 subsets of the candidate endpoints x "
+         "{-40..130 step 0.5, every endpoint and its float neighbours, NaN}; hour_of_week over all 168 values incl. DST weeks; occupied/unoccupied "
+         "exclusivity in fit and prediction design matrices.",
+         "Reference model refmodels/segments.py (zoneinfo + Fractions, no pandas).",
+         "DESIGN.md section 6, C18"),
 }
 
 NOT_YET = {}
